@@ -379,3 +379,6 @@ def tag(line, impl, model):
     cfg, method, body, addrs, prime, faults = sc
     cls = "idem" if method.upper() in IANA_IDEMPOTENT else "non-idem"
     return "%s %s body=%s pconn=%d -> arrivals=%d st=%s" % (cfg, cls, body[0], prime, len(obs[1]), obs[0])
+
+
+KNOWN_MUST_MATCH_MODEL = True   # inside a known finding's region the observation must still equal the model's (which reproduces the listed defect); see lib/vf/run.py
